@@ -233,6 +233,339 @@ pub fn case_strategy(kind: Kind) -> impl Strategy<Value = Case> {
         })
 }
 
+// ------------------------------------------------------------------------------ libFuzzer decoder
+//
+// `case_from_bytes` maps fuzz bytes onto the `Case` domain of `case_strategy(kind)`; the first byte
+// selects the kind (b % 3: sfnt, ttc, woff = the sections of the same names). Same ranges and
+// collection sizes as the strategies; selectors keep roughly their weights. Sort keys and pick
+// words are read as one / two bytes and spread over the 32 bits (only their order, respectively
+// their high bits, are read by the encoders); PRNG seeds are two bytes unless a flag asks for
+// eight. The layout of the container kind that the case does not use (the strategy generates both,
+// the oracle reads one) is the decoding of an empty input. Tape: kind, the used layout, probe tags,
+// members, pool. An exhausted input yields zeros — the conforming layout choices — and collections
+// stop at their minimum size, so every byte string is a case. `domain_violation` re-states the
+// ranges and is asserted on every decoded case.
+
+use arbitrary::Unstructured;
+
+type UResult<T> = arbitrary::Result<T>;
+
+fn fz_u8(u: &mut Unstructured<'_>) -> UResult<u8> {
+    u.arbitrary::<u8>()
+}
+
+/// a sort key: one byte spread over the word
+fn fz_key(u: &mut Unstructured<'_>) -> UResult<u32> {
+    Ok(fz_u8(u)? as u32 * 0x0101_0101)
+}
+
+/// a word read through `pick` (high bits): two bytes, in both halves
+fn fz_pick_word(u: &mut Unstructured<'_>) -> UResult<u32> {
+    let v = u.arbitrary::<u16>()? as u32;
+    Ok(v << 16 | v)
+}
+
+fn fz_keys(u: &mut Unstructured<'_>, max: usize) -> UResult<Vec<u32>> {
+    let n = u.int_in_range(1usize..=max)?;
+    let mut v = Vec::with_capacity(n);
+    for k in 0..n {
+        if k >= 1 && u.is_empty() {
+            break;
+        }
+        v.push(fz_key(u)?);
+    }
+    Ok(v)
+}
+
+fn fz_seed(u: &mut Unstructured<'_>, wide: bool) -> UResult<u64> {
+    Ok(if wide { u.arbitrary::<u64>()? } else { u.arbitrary::<u16>()? as u64 })
+}
+
+/// `tag_strategy()`
+fn fz_tag(u: &mut Unstructured<'_>) -> UResult<Tag> {
+    let h = fz_u8(u)?;
+    let known = |u: &mut Unstructured<'_>| -> UResult<Tag> { Ok(*KNOWN[u.int_in_range(0usize..=KNOWN.len() - 1)?]) };
+    Ok(match h % 10 {
+        0..=5 => known(u)?,
+        6 | 7 => {
+            let mut t = [0x20u8; 4];
+            for b in t.iter_mut() {
+                *b = u.int_in_range(0x20u8..=0x7E)?;
+            }
+            t
+        }
+        _ => {
+            let mut t = known(u)?;
+            let p = u.int_in_range(0usize..=3)?;
+            t[p] = u.int_in_range(0x20u8..=0x7E)?;
+            t
+        }
+    })
+}
+
+/// `blob_strategy()`
+fn fz_blob(u: &mut Unstructured<'_>) -> UResult<BlobGen> {
+    let tag = fz_tag(u)?;
+    // flags: bits 0-2 content, bits 3-5 all set = same tag as the previous blob, bits 6-7 both set = sub-range
+    let f = fz_u8(u)?;
+    let content = (f & 7) % 7;
+    let same_tag_as_prev = (f >> 3) & 7 == 7;
+    let has_sub = f >> 6 == 3;
+    // length class (low nibble; `len_strategy()` weights 2:3:5:4:2) and seed width (high nibble)
+    let c = fz_u8(u)?;
+    let len = match c & 15 {
+        0 | 1 => 0usize,
+        2..=4 => u.int_in_range(1usize..=3)?,
+        5..=9 => u.int_in_range(4usize..=63)?,
+        10..=13 => u.int_in_range(64usize..=599)?,
+        _ => u.int_in_range(600usize..=3000)?,
+    };
+    let seed = fz_seed(u, c >> 4 == 15)?;
+    let sub = if has_sub { Some((fz_pick_word(u)?, fz_pick_word(u)?)) } else { None };
+    Ok(BlobGen { tag, same_tag_as_prev, content, len, seed, sub })
+}
+
+/// `order_strategy()` (3 : 1 : 3)
+fn fz_order(u: &mut Unstructured<'_>) -> UResult<DataOrder> {
+    Ok(match fz_u8(u)? % 7 {
+        0..=2 => DataOrder::Directory,
+        3 => DataOrder::Reverse,
+        _ => DataOrder::Keyed,
+    })
+}
+
+/// `sfnt_layout_strategy()`
+fn fz_sfnt_layout(u: &mut Unstructured<'_>) -> UResult<SfntLayout> {
+    let f = fz_u8(u)?;
+    let sorted_dir = f & 3 != 3;
+    let aligned = (f >> 2) & 3 != 3;
+    let use_subranges = f & 0x10 != 0;
+    let merge_identical = f & 0x20 != 0;
+    let dirs_first = f & 0x40 == 0;
+    let ttc_version = if f & 0x80 != 0 { 2 } else { 1 };
+    let order = fz_order(u)?;
+    // gaps: empty (5 of 8) or 1..=5 counts in 0..200
+    let g = fz_u8(u)?;
+    let mut gaps = Vec::new();
+    if g & 7 >= 5 {
+        let n = 1 + ((g >> 3) % 5) as usize;
+        for k in 0..n {
+            if k >= 1 && u.is_empty() {
+                break;
+            }
+            let v = fz_u8(u)?;
+            gaps.push(match v % 7 {
+                0..=2 => 0u8,
+                3 | 4 => 1 + (v >> 3) % 8,
+                5 => 4,
+                _ => u.int_in_range(9u8..=199)?,
+            });
+        }
+    }
+    let gap_fill = if fz_u8(u)? % 5 == 4 { fz_u8(u)? } else { 0 };
+    // store_once: 1..=5 flags, each true 3 times of 4 (two bits of a 16-bit word, both set = false)
+    let n = 1 + (fz_u8(u)? % 5) as usize;
+    let w = u.arbitrary::<u16>()?;
+    let store_once: Vec<bool> = (0..n).map(|k| (w >> (2 * k)) & 3 != 3).collect();
+    let dsig = match fz_u8(u)? % 4 {
+        0 | 1 => (0u32, 0u32, 0u32),
+        2 => (0x44534947u32, u.arbitrary::<u32>()?, u.arbitrary::<u32>()?),
+        _ => (0x44534947u32, u32::MAX, u32::MAX),
+    };
+    let t = fz_u8(u)?;
+    let trailing = if t % 5 == 4 { u.int_in_range(1u8..=39)? } else { 0 };
+    let dir_keys = fz_keys(u, 12)?;
+    let chunk_keys = fz_keys(u, 19)?;
+    Ok(SfntLayout {
+        sorted_dir,
+        dir_keys,
+        order,
+        chunk_keys,
+        gaps,
+        gap_fill,
+        aligned,
+        store_once,
+        use_subranges,
+        merge_identical,
+        dirs_first,
+        ttc_version,
+        dsig,
+        trailing,
+    })
+}
+
+/// `woff_layout_strategy()`
+fn fz_woff_layout(u: &mut Unstructured<'_>) -> UResult<WoffLayout> {
+    let f = fz_u8(u)?;
+    let sorted_dir = f & 7 != 7;
+    let aligned = (f >> 3) & 7 != 7;
+    let has_meta = (f >> 6) & 1 != 0;
+    let has_private = f >> 7 != 0;
+    let order = fz_order(u)?;
+    let version = (u.arbitrary::<u16>()?, u.arbitrary::<u16>()?);
+    // gaps: empty (7 of 8) or 1..=4 counts in 0..12
+    let g = fz_u8(u)?;
+    let mut gaps = Vec::new();
+    if g & 7 == 7 {
+        let n = 1 + ((g >> 3) & 3) as usize;
+        for k in 0..n {
+            if k >= 1 && u.is_empty() {
+                break;
+            }
+            gaps.push(u.int_in_range(0u8..=11)?);
+        }
+    }
+    let gap_fill = if fz_u8(u)? % 3 == 2 { fz_u8(u)? } else { 0 };
+    let meta = if has_meta {
+        let len = u.int_in_range(1usize..=399)?;
+        let level = u.int_in_range(0u32..=9)?;
+        let seed = fz_seed(u, false)?;
+        Some((content(3, len, seed), level))
+    } else {
+        None
+    };
+    let private = if has_private {
+        let len = u.int_in_range(0usize..=59)?;
+        let seed = fz_seed(u, false)?;
+        Some(content(0, len, seed))
+    } else {
+        None
+    };
+    // comp: 1..=12 per-table choices (2 : 5 : 1 : 1)
+    let n = u.int_in_range(1usize..=12)?;
+    let mut comp = Vec::with_capacity(n);
+    for k in 0..n {
+        if k >= 1 && u.is_empty() {
+            break;
+        }
+        let c = fz_u8(u)?;
+        let level = ((c / 9) % 10) as u32;
+        comp.push(match c % 9 {
+            0 | 1 => Comp::Stored,
+            2..=6 => Comp::Deflate(level),
+            7 => Comp::Deflate(9),
+            _ => Comp::DeflateAlways(level),
+        });
+    }
+    let dir_keys = fz_keys(u, 12)?;
+    let chunk_keys = fz_keys(u, 12)?;
+    Ok(WoffLayout { comp, order, chunk_keys, meta, private, version, sorted_dir, dir_keys, aligned, gaps, gap_fill })
+}
+
+/// Decode libFuzzer bytes into a case of the `sfnt`, `ttc` or `woff` section (structure-aware, total).
+pub fn case_from_bytes(data: &[u8]) -> arbitrary::Result<Case> {
+    let mut u = Unstructured::new(data);
+    let u = &mut u;
+    let kind = match fz_u8(u)? % 3 {
+        0 => Kind::Sfnt,
+        1 => Kind::Ttc,
+        _ => Kind::Woff,
+    };
+    let mut empty = Unstructured::new(&[]);
+    let (layout, woff) = match kind {
+        Kind::Woff => (fz_sfnt_layout(&mut empty)?, fz_woff_layout(u)?),
+        _ => (fz_sfnt_layout(u)?, fz_woff_layout(&mut empty)?),
+    };
+    let n = u.int_in_range(0usize..=3)?;
+    let mut probe_tags = Vec::with_capacity(n);
+    for _ in 0..n {
+        if u.is_empty() {
+            break;
+        }
+        probe_tags.push(u.arbitrary::<u32>()?);
+    }
+    let nmem = if kind == Kind::Ttc { u.int_in_range(1usize..=4)? } else { 1 };
+    let mut members = Vec::with_capacity(nmem);
+    for k in 0..nmem {
+        if k >= 1 && u.is_empty() {
+            break;
+        }
+        // head: low nibble picks - 1, high nibble flavour (3 : 2 : 1)
+        let h = fz_u8(u)?;
+        let flavour = match (h >> 4) % 6 {
+            0..=2 => TTF,
+            3 | 4 => OTTO,
+            _ => TRUE,
+        };
+        let np = 1 + (h & 15) as usize;
+        let mut picks = Vec::with_capacity(np);
+        for j in 0..np {
+            if j >= 1 && u.is_empty() {
+                break;
+            }
+            picks.push(fz_u8(u)?);
+        }
+        members.push(MemberGen { flavour, picks });
+    }
+    let (pmin, pmax) = if kind == Kind::Ttc { (1usize, 16usize) } else { (0, 14) };
+    let npool = u.int_in_range(pmin..=pmax)?;
+    let mut pool = Vec::with_capacity(npool);
+    for k in 0..npool {
+        if k >= pmin && u.is_empty() {
+            break;
+        }
+        pool.push(fz_blob(u)?);
+    }
+    let case = Case { kind, pool, members, layout, woff, probe_tags };
+    if let Some(what) = domain_violation(&case) {
+        panic!("C10 case_from_bytes left the domain of case_strategy: {}", what);
+    }
+    Ok(case)
+}
+
+/// The ranges of `case_strategy(kind)`, re-stated.
+fn domain_violation(c: &Case) -> Option<&'static str> {
+    let ttc = c.kind == Kind::Ttc;
+    if !(if ttc { 1..=16 } else { 0..=14 }).contains(&c.pool.len()) {
+        return Some("pool size");
+    }
+    if !(if ttc { 1..=4 } else { 1..=1 }).contains(&c.members.len()) {
+        return Some("member count");
+    }
+    for b in &c.pool {
+        if b.tag.iter().any(|x| !(0x20..0x7F).contains(x)) || b.content > 6 || b.len > 3000 {
+            return Some("blob");
+        }
+    }
+    for m in &c.members {
+        if ![TTF, OTTO, TRUE].contains(&m.flavour) || !(1..=16).contains(&m.picks.len()) {
+            return Some("member");
+        }
+    }
+    let l = &c.layout;
+    if !(1..=12).contains(&l.dir_keys.len())
+        || !(1..=19).contains(&l.chunk_keys.len())
+        || l.gaps.len() > 5
+        || l.gaps.iter().any(|g| *g >= 200)
+        || !(1..=5).contains(&l.store_once.len())
+        || !(1..=2).contains(&l.ttc_version)
+        || l.trailing >= 40
+        || !(l.dsig == (0, 0, 0) || l.dsig.0 == 0x44534947)
+    {
+        return Some("sfnt layout");
+    }
+    let w = &c.woff;
+    let level_ok = |c: &Comp| match c {
+        Comp::Stored => true,
+        Comp::Deflate(l) | Comp::DeflateAlways(l) => *l <= 9,
+    };
+    if !(1..=12).contains(&w.comp.len())
+        || !w.comp.iter().all(level_ok)
+        || !(1..=12).contains(&w.chunk_keys.len())
+        || !(1..=12).contains(&w.dir_keys.len())
+        || w.gaps.len() > 4
+        || w.gaps.iter().any(|g| *g >= 12)
+        || w.meta.as_ref().map_or(false, |(x, l)| !(1..=399).contains(&x.len()) || *l > 9 || std::str::from_utf8(x).is_err())
+        || w.private.as_ref().map_or(false, |x| x.len() > 59)
+    {
+        return Some("woff layout");
+    }
+    if c.probe_tags.len() > 3 {
+        return Some("probe tags");
+    }
+    None
+}
+
 /// deterministic table content of a given flavour (0 random, 1 zeros, 2 short period, 3 text,
 /// 4 sparse, 5 container magic in front, 6 long period)
 pub fn content(kind: u8, len: usize, seed: u64) -> Vec<u8> {
